@@ -66,6 +66,9 @@ def correspondence(ctx, model_ok, tmp):
     reg = b.registry
     dt = DatasetType("dt", {"instrument", "detector"}, "StructuredDataDict", universe=b.dimensions)
     reg.registerDatasetType(dt)
+    # a dataset type without dimensions (like "packages"): every match falls into one single group
+    dt0 = DatasetType("dt0", set(), "StructuredDataDict", universe=b.dimensions)
+    reg.registerDatasetType(dt0)
     KEYS = [1, 2, 3, 4]
     req, impl = [], []
     n_hist = 25 if ctx.quick() else 400
@@ -106,6 +109,16 @@ def correspondence(ctx, model_ok, tmp):
                     impl.append("ok")
                 if rng.random() < 0.4:
                     reg.insertDatasets(dt, [{"instrument": "J", "detector": k}], run=names[rcoll])  # noise of the other instrument
+        # the dimensionless dataset goes into a random subset of the runs, in an order that is not the order of their names
+        contents0 = {}
+        for rcoll in rng.sample(runs, len(runs)):
+            if rng.random() < 0.6:
+                (ref0,) = reg.insertDatasets(dt0, [{}], run=names[rcoll])
+                contents0[rcoll] = ref0.id
+        if contents0 and tagged and rng.random() < 0.5:
+            src0 = rng.choice(sorted(contents0))
+            reg.associate(names[tagged[0]], [reg.getDataset(contents0[src0])])
+            contents0[tagged[0]] = contents0[src0]
         for t in tagged:
             for k in KEYS:
                 cands = [i for i, (_, kk, _) in enumerate(ds) if kk == k]
@@ -129,6 +142,20 @@ def correspondence(ctx, model_ok, tmp):
                     out += reach(k)
             return out
 
+        # one history in three edits its chains inside a caching context whose cache already holds every chain record (as
+        # Butler.import_ does): edits, cycle checks and lookups in that context must see each edit at once
+        import contextlib
+
+        edit_ctx = contextlib.ExitStack()
+        in_cache = False
+        if rng.random() < 0.34:
+            in_cache = True
+            edit_ctx.enter_context(reg.caching_context())
+            for c in chains:
+                reg.getCollectionChain(names[c])
+            reg.queryCollections([names[c] for c in chains], flattenChains=True)
+            ops_log.append(("inside-caching-context",))
+            ctx.count("history-edited-inside-caching-context")
         for step in range(rng.randint(8, 16)):
             op = rng.choice(["redefine", "prepend", "extend", "extend", "prepend", "remove"])
             p = rng.choice(chains) if rng.random() < 0.92 else rng.choice(runs + tagged + [GHOST])
@@ -139,7 +166,33 @@ def correspondence(ctx, model_ok, tmp):
                 kids.append(GHOST)
             if rng.random() < 0.06:
                 kids = []
+            if in_cache and op != "redefine" and rng.random() < 0.7:
+                op = "redefine"
             ops_log.append((op, p, kids))
+            if in_cache and op != "redefine":
+                # the collections interface refuses to edit a chain while a caching context is active (RuntimeError, by design);
+                # nothing may change.  Registry.setCollectionChain is the edit that is allowed there.
+                try:
+                    {"prepend": b.collections.prepend_chain, "extend": b.collections.extend_chain,
+                     "remove": b.collections.remove_from_chain}[op](names.get(p, "ghost_parent"), [names.get(k, "ghost_child") for k in kids])
+                    out = "ok"
+                except RuntimeError:
+                    out = "refused-in-caching-context"
+                except Exception as e:
+                    out = f"err {type(e).__name__}"
+                ctx.count("in-cache:" + out.split()[0])
+                ctx.evaluations += 1
+                if out == "ok":
+                    viol(f"{op}_chain({p}, {kids}) inside a caching context -> accepted; the interface documents a refusal there",
+                         f"edit-in-cache:{ops_log}", {"kind": "history", "ops": ops_log, "failing_step": step})
+                    break
+                key_of = {nm: k for k, nm in names.items()}
+                for c in chains:
+                    got = [key_of[nm] for nm in reg.getCollectionChain(names[c])]
+                    if got != chain_def[c]:
+                        viol(f"after the refused {ops_log[-1]}: getCollectionChain({c}) = {got}, definition is {chain_def[c]}",
+                             f"children:{ops_log}", {"kind": "history", "ops": ops_log, "chain": c, "got": got, "want": chain_def[c]})
+                continue
             # ---- oracle verdict (documented behaviour)
             want_err = None
             if any(k == GHOST for k in kids):
@@ -151,7 +204,8 @@ def correspondence(ctx, model_ok, tmp):
             elif kinds.get(p) != "C":
                 want_err = "CollectionTypeError"
             fn = {
-                "redefine": b.collections.redefine_chain, "prepend": b.collections.prepend_chain,
+                "redefine": (lambda pn_, kn_: reg.setCollectionChain(pn_, kn_)) if in_cache else b.collections.redefine_chain,
+                "prepend": b.collections.prepend_chain,
                 "extend": b.collections.extend_chain, "remove": b.collections.remove_from_chain,
             }[op]
             pname = names.get(p, "ghost_parent")
@@ -206,6 +260,7 @@ def correspondence(ctx, model_ok, tmp):
                     viol(f"after {ops_log[-1]}: getCollectionChain({c}) = {got}, documented child order {chain_def[c]}",
                          f"children:{ops_log}", {"kind": "history", "ops": ops_log, "chain": c, "got": got, "want": chain_def[c]})
         con.close()
+        edit_ctx.close()
         if poisoned:
             break
 
@@ -244,6 +299,28 @@ def correspondence(ctx, model_ok, tmp):
             if got != fl:
                 viol(f"queryCollections({path}, flattenChains=True) = {got}, depth-first first-occurrence order is {fl}",
                      f"flatten:{ops_log}:{path}", {"kind": "history", "ops": ops_log, "path": path, "got": got, "want": fl})
+            # the dimensionless dataset type: first collection of the flattened path that holds it
+            want0 = next((contents0[c] for c in fl if c in contents0), None)
+            got0 = {}
+            r_ = reg.findDataset(dt0, collections=pn)
+            got0["Registry.findDataset"] = None if r_ is None else r_.id
+            r_ = b.find_dataset(dt0, collections=pn)
+            got0["Butler.find_dataset"] = None if r_ is None else r_.id
+            try:
+                rows0 = list(reg.queryDatasets(dt0, collections=pn, findFirst=True))
+                got0["Registry.queryDatasets(findFirst)"] = [x.id for x in rows0][0] if len(rows0) == 1 else (None if not rows0 else f"{len(rows0)} rows")
+                rows0 = b.query_datasets(dt0, collections=pn, find_first=True, explain=False)
+                got0["Butler.query_datasets(find_first)"] = [x.id for x in rows0][0] if len(rows0) == 1 else (None if not rows0 else f"{len(rows0)} rows")
+            except Exception as e:
+                got0["query"] = f"{type(e).__name__}: {str(e)[:80]}"
+            ctx.evaluations += 1
+            ctx.count("dimensionless-find-first" + (":match" if want0 else ""))
+            for api, v in got0.items():
+                if v != want0:
+                    holders = [c for c in fl if c in contents0]
+                    viol(f"{api}(dimensionless dataset type, collections={path}) returns the dataset of {[c for c in contents0 if contents0[c] == v] or v}, "
+                         f"the first collection of the flattened path {fl} that holds one is {holders[:1]}", f"find0:{ops_log}:{path}:{api}",
+                         {"kind": "history", "ops": ops_log, "path": path, "api": api})
             want_all = {}
             for k in KEYS:
                 want_all[k] = next((contents[c][k] for c in fl if k in contents[c]), None)
